@@ -24,6 +24,7 @@ func init() {
 			"(ksize/vsize/flags/pgid/pos, key bytes before value bytes), the 0xFFFF freelist-count convention tabulated on writer, reader and size estimator, the initial four-page layout written by init, checksum-after-mutation and the meta slot. " +
 			"NOT decided: that arbitrary histories produce files an independent reader decodes to the same content, golden-file compatibility (dynamic). Round 4: the page size of an existing file comes from the file (re-evaluated).",
 		Run: func(c *Ctx) {
+			ruleMetaSlot(c, "C12.R14") // "the current state is the valid meta page with the highest txid": slot = txid%2 and the db.meta() decision table (seed C12c)
 			ruleBackupMetaBufferOnePage(c, "C12.R13") // a backup is a version-2 file at the database's page size
 			c13R10(c, "C12.R12") // "open and read back identically under any option combination and page size": the page size of an existing file comes from the file
 			c12R1(c, "C12.R1")
